@@ -14,6 +14,7 @@
 #include "gen/sse.CountOnes.inc"
 #include "gen/sse.PrefixXor.inc"
 #endif
+#define BIT(x, i) (((x) >> (i)) & 1)
 #define GETESCAPED_(n) GetEscaped_##n
 #define GETESCAPED(n) GETESCAPED_(n)
 
